@@ -6,6 +6,11 @@ import ChythonModel.Props.C14
 the valence-valid methyldiazenium cation `CN=[NH2+]` (5 hydrogens) is rewritten to the diazonium `C[N+]#N` (3 hydrogens).
 The witness runs the *model* (`runRule` + `recalc`, the functions the driver runs) on that molecule in the kernel; the same
 input is executed on the real code by the standing probe of the finding.
+
+`C14/neutralize/idempotent/unbalanced` (round 5): with more donors than acceptors `_neutralize` leaves a donor, and deprotonating a
+protonated amine oxide turns its O⁻ into an acceptor: a second call moves another proton. The witness evaluates the model
+(`matchFirstAtoms`, `neutralizeCheck`, `neutralizeModel` — the functions the driver runs) on `C[NH+](C)[O-].[NH4+].[Cl-]` in the
+kernel and refutes the full statement `NeutralizeIdempotent`; the probe of the finding runs the same input on the real code.
 -/
 namespace ChythonModel.Findings.C14
 open ChythonModel.Model ChythonModel.Model.Std ChythonModel.Gen.Rules ChythonModel.Proofs.C14 ChythonModel.Props.C14
@@ -53,5 +58,41 @@ theorem rules_do_not_conserve_hydrogens : ¬ RulesConserveHydrogens := by
           have := h r hr 0 diazenium [] [[1, 2, 3]] L st m' hv.1 hv.2.1 hv.2.2 hL hst hm
           simp [this] at hne
         · simp at hf
+
+/-- `C[NH+](C)[O-].[NH4+].[Cl-]`: a protonated amine oxide, ammonium, chloride — two donors (2, 5), one acceptor (6) -/
+def oxideSalt : Mol :=
+  ⟨[(1, { z := 6, implH := some 3 }), (2, { z := 7, charge := 1, implH := some 1 }), (3, { z := 6, implH := some 3 }),
+    (4, { z := 8, charge := -1, implH := some 0 }), (5, { z := 7, charge := 1, implH := some 4 }), (6, { z := 17, charge := -1, implH := some 0 })],
+   [(1, [(2, { order := 1 })]), (2, [(1, { order := 1 }), (3, { order := 1 }), (4, { order := 1 })]), (3, [(2, { order := 1 })]),
+    (4, [(2, { order := 1 })]), (5, []), (6, [])]⟩
+def oxideSaltLabels : Labels :=
+  ⟨[(1, ⟨1, 1, 1, []⟩), (2, ⟨3, 1, 1, []⟩), (3, ⟨1, 1, 1, []⟩), (4, ⟨1, 1, 1, []⟩), (5, ⟨0, 1, 0, []⟩), (6, ⟨0, 1, 0, []⟩)], []⟩
+def oxideSaltComps : List (List Nat) := [[1, 2, 3, 4], [5], [6]]
+
+/-- what the real first call returns (donor 2 is the first of the set): `CN(C)[O-].[NH4+].Cl` -/
+def oxideSaltOnce : Mol :=
+  ⟨[(1, { z := 6, implH := some 3 }), (2, { z := 7, charge := 0, implH := some 0 }), (3, { z := 6, implH := some 3 }),
+    (4, { z := 8, charge := -1, implH := some 0 }), (5, { z := 7, charge := 1, implH := some 4 }), (6, { z := 17, charge := 0, implH := some 1 })],
+   oxideSalt.adj⟩
+
+theorem oxideSalt_facts :
+    oxideSalt.WF = true ∧ (graphOfMol oxideSalt).WF = true ∧ ringSymm oxideSaltLabels = true ∧
+    matchFirstAtoms acidStripped oxideSalt oxideSaltLabels oxideSaltComps = some [2, 5] ∧
+    matchFirstAtoms baseStripped oxideSalt oxideSaltLabels oxideSaltComps = some [6] ∧
+    neutralizeCheck oxideSalt [2, 5] [6] [2, 6] (some oxideSaltOnce) = true ∧
+    (neutralizeModel true oxideSaltOnce oxideSaltLabels oxideSaltComps).map (fun r => (r.1, r.2.1, r.2.2 == .nothing)) =
+      some ([5], [4], false) := by decide +kernel
+
+/-- the full statement `NeutralizeIdempotent` is false of the model of today's code: after the first call the O⁻ of the former
+    zwitterion has become an acceptor and the ammonium is still a donor -/
+theorem neutralize_is_not_idempotent : ¬ NeutralizeIdempotent := by
+  intro h
+  obtain ⟨hwf, hg, hl, hd, ha, hc, hsecond⟩ := oxideSalt_facts
+  cases hr : neutralizeModel true oxideSaltOnce oxideSaltLabels oxideSaltComps with
+  | none => simp [hr] at hsecond
+  | some r =>
+    have := h oxideSalt oxideSaltOnce oxideSaltLabels oxideSaltComps [2, 5] [6] [2, 6] hg
+      (fun p hp => bondOk_symm p oxideSalt oxideSaltLabels (baseStripped_patSymm p hp) hwf hl) hd ha hc r hr
+    simp [hr, this] at hsecond
 
 end ChythonModel.Findings.C14
